@@ -647,11 +647,12 @@ def scenarios_for(rng, tier):
     n = lambda lo, hi: rng.randrange(lo, hi + 1)
     scs = []
     if tier == "quick":
-        scs.append(build_scenario(rng, "bess", n(5, 8), 4, "bess_a"))
-        scs.append(build_scenario(rng, "bess", 2, 6, "bess_b", pause=150))
-        scs.append(build_scenario(rng, "node", n(3, 6), 3, "node_a"))
-        scs.append(build_scenario(rng, "up4", n(4, 8), 4, "up4_a", pause=200))
-        scs.append(build_scenario(rng, "bess", n(3, 5), 3, "bess_small_pool", pool="10.250.0.0/26"))
+        scs.append(build_scenario(rng, "bess", n(5, 8), 5, "bess_a"))
+        scs.append(build_scenario(rng, "bess", 2, 8, "bess_b", pause=150))
+        scs.append(build_scenario(rng, "node", n(3, 6), 4, "node_a"))
+        scs.append(build_scenario(rng, "up4", n(4, 8), 5, "up4_a", pause=200))
+        scs.append(build_scenario(rng, "up4", 2, 6, "up4_b", pause=50))
+        scs.append(build_scenario(rng, "bess", n(3, 5), 3, "bess_small_pool", pool="10.250.0.0/26", pause=0))
     else:
         for i in range(8):
             scs.append(build_scenario(rng, "bess", n(2, 8), n(3, 8), f"bess_{i}", pause=rng.choice([0, 100, 600, 2000])))
@@ -693,11 +694,15 @@ def run(tier, seed, replay=None):
     rng = rng_for(seed, "C11")
     if not proved and table is not None:
         # search step: name the access pair that broke the discipline (only meaningful for the lockset obligations)
-        bad = lockset_python(table["rows"])
-        exp_all = {"UP4.appMeterCellIDsPool", "UP4.endMarkerChan", "UP4.fseidToUEAddr", "UP4.meters", "UP4.p4RtTranslator", "UP4.p4client",
-                   "UP4.sessMeterCellIDsPool", "UP4.ueAddrToFSEID", "counter.counterIDsPool", "upf.sliceInfo"}
-        for f in sorted(set(bad) - exp_all):
-            a, b = bad[f][0]
+        exp_run = set(F22_FIELDS) | {"upf.sliceInfo"}
+        exp_all = exp_run | {"UP4.appMeterCellIDsPool", "UP4.endMarkerChan", "UP4.p4RtTranslator", "UP4.p4client",
+                             "UP4.sessMeterCellIDsPool", "counter.counterIDsPool"}
+        bad_run = lockset_python([r for r in table["rows"] if r["phase"] != "reinit"])
+        bad_all = lockset_python(table["rows"])
+        new_bad = {f: bad_run[f] for f in bad_run if f not in exp_run}
+        new_bad.update({f: bad_all[f] for f in bad_all if f not in exp_all and f not in new_bad})
+        for f in sorted(new_bad):
+            a, b = new_bad[f][0]
             ck.fail(f"lockset:{f}", f"lock table: {f} is accessed by {a['func']} ({a['rw']}, {a['file']}:{a['line']}, locks {a['locks']}) and "
                     f"{b['func']} ({b['rw']}, {b['file']}:{b['line']}, locks {b['locks']}) from goroutines that may run at the same time with no common lock",
                     {"field": f, "access_1": a, "access_2": b})
@@ -736,7 +741,7 @@ def run(tier, seed, replay=None):
         r["fails"] = seen_f22 + r["fails"]
         results[i] = r
     ths = [threading.Thread(target=job, args=(i,)) for i in range(len(scs))]
-    par = 5 if tier == "quick" else 4
+    par = 6 if tier == "quick" else 4
     for k in range(0, len(ths), par):
         for t in ths[k:k + par]:
             t.start()
